@@ -18,7 +18,7 @@ def sh(cmd, **kw):
 
 
 def worker(w, q, tier, lock):
-    vx, mx = f"/tmp/vx_{w}", f"/tmp/mx_{w}"
+    vx, mx = f"/tmp/vx_{os.getpid()}_{w}", f"/tmp/mx_{os.getpid()}_{w}"
     with lock:   # git worktree add is not safe to run concurrently
         sh(f"git -C /repo worktree remove --force {mx}; rm -rf {mx}; git -C /repo worktree prune; git -C /repo worktree add -q --detach {mx} HEAD")
     os.makedirs(vx, exist_ok=True)
